@@ -97,7 +97,7 @@ def script_events(t, modname='vtw.tests', nth=1):
         return [('F', base)] if s == 'fail' else []
     mn = t.get('mn', t['n'])
     base = 'test_%s (%s.T_%s.test_%s)' % (mn, modname, t.get('shcls') or t['n'], mn)
-    if s in ('pass', 'xfail', 'leave_replaced', 'warnfilter', 'swap_pass', 'settrace', 'chdir'):
+    if s in ('pass', 'xfail', 'leave_replaced', 'warnfilter', 'swap_pass', 'settrace', 'chdir', 'rmcwd'):
         return []
     if s == 'sub_skip':
         return [('S', '%s (i=0)' % base)]
